@@ -47,6 +47,7 @@ static int        sut_open, is_push;
 static size_t     scale = 1, fragsize;
 static uint16_t   port;
 static long       walk = -1;
+static int        lenient, skip_walk;
 static int        step;
 static char       ob[8192];
 static size_t     on;
@@ -196,7 +197,7 @@ main(int argc, char **argv)
 	nng_init_params p;
 	char            line[512];
 	FILE           *in    = stdin;
-	uint64_t        live0 = 0;
+	uint64_t        live0 = 0, allocs0 = 0;
 
 	setvbuf(stdout, NULL, _IOLBF, 0);
 	memset(&p, 0, sizeof(p));
@@ -257,7 +258,9 @@ main(int argc, char **argv)
 				memset(&cn[c], 0, sizeof(cn[c]));
 				cn[c].rx = rx;
 			}
-			live0 = acct_live_blocks();
+			lenient = skip_walk = 0;
+			allocs0 = acct_total_allocs();
+			live0   = acct_live_blocks();
 			acct_dump_since(acct_total_allocs());
 			printf("B %ld\n", walk);
 			fflush(stdout);
@@ -280,6 +283,8 @@ main(int argc, char **argv)
 				nanosleep(&ts, NULL);
 			}
 			nni_verif_io_max = (size_t) INT32_MAX;
+			printf("A %ld {\"allocs\":%llu,\"fired\":%d}\n", walk, (unsigned long long) (acct_total_allocs() - allocs0), acct_fail_fired());
+			acct_fail_at(0);
 			printf("X %ld {\"fin\":0,\"leak\":%lld,\"mism\":%llu,\"badfree\":%llu}\n", walk,
 			    (long long) acct_live_blocks() - (long long) live0, (unsigned long long) acct_size_mismatches(),
 			    (unsigned long long) acct_bad_frees());
@@ -287,6 +292,15 @@ main(int argc, char **argv)
 				acct_dump_live(8);
 			}
 			fflush(stdout);
+			continue;
+		}
+		if (!strcmp(cmd, "failat")) {
+			// allocation-failure injection (C20): results are not compared from here on, waits are short
+			lenient = 1;
+			acct_fail_at((uint64_t) atol(a[0]));
+			continue;
+		}
+		if (skip_walk) {
 			continue;
 		}
 		if (!strcmp(cmd, "open")) {
@@ -307,6 +321,10 @@ main(int argc, char **argv)
 			port = ntohs(si.sin_port);
 			snprintf(url, sizeof(url), "ws://127.0.0.1:%u/sp", port);
 			if ((rv = is_push ? nng_push0_open(&sut) : nng_pull0_open(&sut)) != 0) {
+				if (lenient) {
+					skip_walk = 1;
+					continue;
+				}
 				return 3;
 			}
 			sut_open = 1;
@@ -315,6 +333,10 @@ main(int argc, char **argv)
 			    (rv = nng_listener_set_size(l, NNG_OPT_RECVMAXSZ, (size_t) atol(a[1]) * scale)) != 0 ||
 			    (rv = nng_listener_set_size(l, NNG_OPT_WS_RECVMAXFRAME, (size_t) atol(a[2]) * scale)) != 0 ||
 			    (rv = nng_listener_set_size(l, NNG_OPT_WS_SENDMAXFRAME, fragsize)) != 0 || (rv = nng_listener_start(l, 0)) != 0) {
+				if (lenient) {
+					skip_walk = 1;
+					continue;
+				}
 				fprintf(stderr, "driver: ws listen %s: %s\n", url, nng_strerror(rv));
 				return 3;
 			}
@@ -335,11 +357,11 @@ main(int argc, char **argv)
 			cn[c].fd = rv == 0 ? fd : -1;
 			o("\"out\":{\"rv\":\"%s\"}", rv == 0 ? "ok" : strerror(errno));
 		} else if (!strcmp(cmd, "http")) {
-			int         c = atoi(a[0]), expclosed = atoi(a[2]), status = 0, wf = 1, then_close = 0;
+			int         c = atoi(a[0]), expclosed = lenient ? 0 : atoi(a[2]), status = 0, wf = 1, then_close = 0;
 			const char *k = a[1];
 			char        req[1024];
 			const char *own   = is_push ? "push" : "pull";
-			uint64_t    end   = now_ms() + 8000;
+			uint64_t    end   = now_ms() + (lenient ? 300 : 8000);
 			char       *eoh   = NULL;
 			const char *line1 = "GET /sp HTTP/1.1\r\n", *host = "Host: 127.0.0.1\r\n", *upg = "Upgrade: websocket\r\n",
 			           *conh = "Connection: Upgrade\r\n", *key = "Sec-WebSocket-Key: dGhlIHNhbXBsZSBub25jZQ==\r\n",
@@ -439,7 +461,7 @@ main(int argc, char **argv)
 			int      c = atoi(a[0]), fin = atoi(a[1]), op = atoi(a[2]), masked = atoi(a[3]), rsv = atoi(a[4]), lenenc = atoi(a[5]);
 			size_t   len  = (size_t) atol(a[6]) * scale;
 			uint8_t  seed = (uint8_t) atoi(a[7]);
-			int      newmsg = atoi(a[8]), expn = atoi(a[9]), exprep = atoi(a[10]), expclosed = atoi(a[11]);
+			int      newmsg = atoi(a[8]), expn = lenient ? 0 : atoi(a[9]), exprep = lenient ? 0 : atoi(a[10]), expclosed = lenient ? 0 : atoi(a[11]);
 			uint8_t *buf = malloc(len + 32), mask[4] = { 0x37, 0xfa, 0x21, 0x3d };
 			size_t   h = 0;
 			int      got = 0, first = 1, nrep = 0, wfall = 1;
@@ -560,9 +582,13 @@ main(int argc, char **argv)
 			size_t   len  = (size_t) atol(a[1]) * scale, have = 0;
 			uint8_t  seed = (uint8_t) atoi(a[2]);
 			nng_msg *m;
-			uint64_t end = now_ms() + 8000;
+			uint64_t end = now_ms() + (lenient ? 300 : 8000);
 			int      rv, ok = 1, nfrag = 0, done = 0, expect_op = 2;
-			nng_msg_alloc(&m, len);
+			if (nng_msg_alloc(&m, len) != 0) {
+				o("\"out\":{\"rv\":\"enomem\"}");
+				obs_emit();
+				continue;
+			}
 			for (size_t i = 0; i < len; i++) {
 				((uint8_t *) nng_msg_body(m))[i] = (uint8_t) (seed + 7 * i);
 			}
